@@ -21,5 +21,14 @@ CHECKS = {
              "a forced Newton failure is the real fsolve with 1 iteration and unreachable tolerances. Failures of 3 or more decision points in one "
              "run, other scenarios and horizons > 5 steps are outside the bound.",
         design="§3 C21"),
+    "C22": dict(
+        level="exploration", engine="grid",
+        technique="exhaustive product enumeration of problem family x dimension x tolerances x iteration limits x Jacobian modes on the real helpers, results re-judged from the user function",
+        text="fsolve: 7 residual families (well/ill conditioned linear up to cond 1e10, quadratic, no real root, exp, Rosenbrock gradient) x n in {1,2,4,8} x 2 starts x "
+             "3x3 tolerances x 4 iteration limits x 6 Jacobian modes (exact, 2-point, 3-point, cs, reused SuperLU, chord) = 12k solves: success implies the scaled criterion "
+             "recomputed at the returned x, failure implies a warning, reported residual belongs to the returned x. Fixed-point helpers: 2 x 7 map families x n=1..8 x 6 tolerance "
+             "pairs x 4 limits: returned point is the accepted iterate or meets the criterion itself, else the helper raised. approx_fprime: 5 functions x 3 methods x 3 steps within C*eps^p.",
+        note="Trusted: the harness's own evaluation of the user functions; the stated form of the criteria (documented in the helpers). Problems outside the families are not covered.",
+        design="§3 C22"),
 }
 NOT_APPLICABLE = {}
